@@ -497,6 +497,7 @@ class Parser:
             if stream.peek.type_ != TokenType.RPAREN:
                 stream.expect_peek(TokenType.COMMA)
                 stream.next_token()
+                stream.expect_peek_not(TokenType.RPAREN, "unexpected trailing comma")
 
             stream.next_token()
 
